@@ -267,7 +267,8 @@ def get_plan(pid):
     if pid in ("C06", "C04"):
         R = "dep_logic.specifiers.range:RangeSpecifier."
         targets = ["dep_logic.utils:pad_zeros", "dep_logic.utils:first_different_index", R + "_simplified_form", R + "__str__",
-                   "dep_logic.specifiers.union:UnionSpecifier._simplified_form", "dep_logic.specifiers:_release_series", "dep_logic.specifiers:_from_pkg_specifier"]
+                   "dep_logic.specifiers.union:UnionSpecifier._simplified_form", "dep_logic.specifiers.union:UnionSpecifier.__str__",
+                   "dep_logic.specifiers:_release_series", "dep_logic.specifiers:_from_pkg_specifier"]
         if pid == "C04":
             targets = targets[-2:]
         extra = [("C04.fold", "spec_fold", {}), ("C04.parse", "spec_parse", {})] if pid == "C04" else []
@@ -278,8 +279,9 @@ def get_plan(pid):
                         trusted_base=["A-ENGINE", "A-VER: suffix-free versions with equal epoch and equal zero-padded release are the same version; Version ==/< read one total order",
                                       "A-PKG-PARSE: Version(str(v)) == v, Version('E!a.b.c') has that epoch/release and no suffix, str(Specifier) re-parses to an equal one, SpecifierSet splits on commas",
                                       "C01/C05 for the algebra between leaves and rendering", "A-TERM"],
-                        assumptions=["the clause 'the bounds of a rendered !=X.* are exactly X.0 and (X+1).0' is not decided by proof (instantiation does not converge on shifted views of padded lists): bounded only",
-                                     "UnionSpecifier.__str__ ('||'.join of the range texts) and from_specifierset/parse_version_specifier folds are covered by the bounded part",
+                        assumptions=[
+                                     "UnionSpecifier.__str__ is checked modularly (one range text per range, in order, joined by '||'); that a '||'-joined text denotes the union of its alternatives is the "
+                                     "parse_version_specifier obligation of C04/C17",
                                      "C04: final-release candidates and packaging's contains() are the bounded part (A-PKG-CONTAINS)"],
                         explanation="proof part: rendering forms and leaf translation are structurally what PEP 440 says (obligations C06.range.*, C06.union.*, C06.release-series.*, C04.leaf.*); "
                                     "bounded part: str()/parse round trip and membership against packaging over the version-text grammar, boundary-shape catalogue and expression trees")
